@@ -1,5 +1,5 @@
 import GoSquare.Proofs.ExportKept
-import GoSquare.Properties.C06
+import GoSquare.Proofs.C06Core
 /-! (C04) where every blob sits: the start index recorded for a blob is the index at which the
     blob's own share encoding appears verbatim in the square; that index is a multiple of the
     blob's subtree width; blob ranges are pairwise disjoint and ordered. -/
